@@ -839,3 +839,45 @@ def rule_file7(prog, rep, tier, worker="sync_properties.sync_properties", per_pa
                               "that does not resolve is silently ignored" % (bad, total), loc(prog, visit_stmt)))
     else:
         rep.holds("FILE-7", "every returning path after .visit() asserts .replaced", loc(prog, visit_stmt), "%d paths" % total)
+
+
+def rule_file2c(prog, rep, tier, anchor="conformance._conform_filename"):
+    """FILE-2c (C09): a target that exists and whose definition was found is left unwritten only because its syntax tree
+    equals the replacement (or the transformer reported no replacement); any other reason to skip leaves a stale target."""
+    fi = prog.fn(anchor)
+    rs = reaches_sink(prog)
+    cfg = CFG(fi.node)
+    n = 0
+    for path in cfg.paths():
+        if path[-1][0].kind != "RETURN":
+            continue
+        writes = [1 for node, _ in path if node.stmt is not None and _contains_sink_call(prog, node.stmt, rs) is not None]
+        if writes:
+            continue
+        n += 1
+        fs = path_facts(path)
+        reason = None
+        for a, p in fs:
+            if isinstance(a, ast.Call):
+                nm = a.func.id if isinstance(a.func, ast.Name) else getattr(a.func, "attr", "")
+                if nm in ("cmp_ast", "compare_ast", "ast_equal") and p is True:
+                    reason = "syntax trees equal (%s)" % src(a, 50)
+            elif isinstance(a, ast.Compare) and len(a.ops) == 1 and isinstance(a.left, ast.Call) and isinstance(a.comparators[0], ast.Call):
+                l, r = a.left, a.comparators[0]
+                fnm = l.func.id if isinstance(l.func, ast.Name) else getattr(l.func, "attr", "")
+                if dump(l.func) == dump(r.func) and fnm in ("dump", "to_code", "unparse", "_to_code") and ((isinstance(a.ops[0], ast.Eq) and p) or (isinstance(a.ops[0], ast.NotEq) and not p)):
+                    reason = "rendered trees equal (%s)" % src(a, 50)
+            elif isinstance(a, ast.Attribute) and a.attr == "replaced" and p is False:
+                reason = reason or "the transformer reported no replacement"
+        desc = ",".join("%s%s" % ("" if l[1] else "!", src(l[0], 40)) for nd, l in path if l is not None and l[0] not in ("iter", "except"))
+        if reason:
+            rep.holds("FILE-2c", "unwritten path [%s]" % desc, loc(prog, path[-2][0].stmt) if path[-2][0].stmt is not None else anchor, reason)
+        else:
+            ret = next((nd.stmt for nd, _ in reversed(path) if nd.kind == "return"), None)
+            rep.violation(Finding(
+                "FILE-2c", anchor, "skip-without-ast-equality",
+                "a path of %s leaves an existing target unwritten although no condition on it establishes that the found definition equals the replacement "
+                "(conditions on the path: %s): a stale definition that satisfies the weaker condition is never brought into agreement with the truth"
+                % (anchor, desc), loc(prog, ret) if ret is not None else anchor))
+    if n == 0:
+        raise AnalysisError("FILE-2c: no unwritten returning path in %s" % anchor)
